@@ -166,6 +166,9 @@ func (g *G) node(sc *scope, depth int, cfgFalse bool, inChoice bool) *Node {
 		n := &Node{Kind: "container", Name: g.id("c")}
 		if g.Chance(1, 3, "pres") {
 			n.Presence = "enables " + n.Name
+			if g.Chance(1, 5, "emptypresence") {
+				n.Presence = EmptyPresence
+			}
 		}
 		g.decorate(n, sc, cfgFalse)
 		n.Kids = g.kids(sc, depth-1, cfgFalse || n.Config == "false")
@@ -312,6 +315,7 @@ func (g *G) GenSet() []*Mod {
 	nm := 1 + g.Pick(cfg.MaxMods, "nmods")
 	var mods []*Mod
 	var scopes []*scope
+	subs := map[int]*Mod{}
 	for i := 0; i < nm; i++ {
 		m := &Mod{Name: fmt.Sprintf("m%d", i), Prefix: fmt.Sprintf("m%d", i)}
 		if g.Chance(1, 3, "rev") {
@@ -330,19 +334,63 @@ func (g *G) GenSet() []*Mod {
 			if g.Chance(1, 2, "import") {
 				pfx := fmt.Sprintf("p%d", j)
 				m.Imports = append(m.Imports, Import{Mod: mods[j].Name, Prefix: pfx})
-				for _, t := range mods[j].Typedefs {
-					sc.typedefs = append(sc.typedefs, pfx+":"+t.Name)
-				}
-				for _, gr := range mods[j].Groupings {
-					sc.groupings = append(sc.groupings, pfx+":"+gr.Name)
-				}
-				for _, f := range mods[j].Features {
-					sc.features = append(sc.features, pfx+":"+f.Name)
-				}
-				for _, id := range mods[j].Identities {
-					sc.idents = append(sc.idents, pfx+":"+id.Name)
+				g.see(sc, pfx+":", mods[j])
+				if sub := subs[j]; sub != nil {
+					g.see(sc, pfx+":", sub)
 				}
 			}
+		}
+		// a submodule with definitions of its own (and imports of its own, which the module need not repeat)
+		if !cfg.NoSubmods && g.Chance(1, 3, "submodule") {
+			sub := &Mod{Name: fmt.Sprintf("m%d-sub", i), Prefix: m.Prefix, BelongsTo: m.Name}
+			ssc := &scope{mod: sub}
+			for j := 0; j < i; j++ {
+				if g.Chance(1, 2, "subimport") {
+					pfx := fmt.Sprintf("q%d", j)
+					sub.Imports = append(sub.Imports, Import{Mod: mods[j].Name, Prefix: pfx})
+					g.see(ssc, pfx+":", mods[j])
+					if s2 := subs[j]; s2 != nil {
+						g.see(ssc, pfx+":", s2)
+					}
+				}
+			}
+			if !cfg.NoFeatures {
+				for k, nf := 0, g.Pick(3, "snfeat"); k < nf; k++ {
+					f := &Feature{Name: fmt.Sprintf("sf%d-%d", i, k)}
+					if len(ssc.features) > 0 && g.Chance(1, 3, "sfeatdep") {
+						f.IfFeatures = []string{ssc.features[g.Pick(len(ssc.features), "sfdep")]}
+					}
+					sub.Features = append(sub.Features, f)
+					ssc.features = append(ssc.features, f.Name)
+				}
+			}
+			for k, ni := 0, g.Pick(3, "snident"); k < ni; k++ {
+				id := &Identity{Name: fmt.Sprintf("si%d-%d", i, k)}
+				if len(ssc.idents) > 0 && g.Chance(2, 3, "sidbase") {
+					id.Base = ssc.idents[g.Pick(len(ssc.idents), "sidb")]
+				}
+				sub.Identities = append(sub.Identities, id)
+				ssc.idents = append(ssc.idents, id.Name)
+			}
+			for k, nt := 0, g.Pick(3, "sntypedef"); k < nt; k++ {
+				t, def := g.simpleType(ssc, false)
+				td := &Typedef{Name: fmt.Sprintf("st%d-%d", i, k), Type: t}
+				if def != nil && g.Chance(1, 3, "stddef") {
+					td.Default = def
+				}
+				sub.Typedefs = append(sub.Typedefs, td)
+				ssc.typedefs = append(ssc.typedefs, td.Name)
+			}
+			for k, ng := 0, g.Pick(3, "sngroup"); k < ng; k++ {
+				gr := &Grouping{Name: fmt.Sprintf("sg%d-%d", i, k)}
+				gr.Kids = g.kids(ssc, 1, false)
+				sub.Groupings = append(sub.Groupings, gr)
+				ssc.groupings = append(ssc.groupings, gr.Name)
+			}
+			m.Includes = []string{sub.Name}
+			subs[i] = sub
+			// the module sees everything its submodule defines
+			g.see(sc, "", sub)
 		}
 		if !cfg.NoFeatures {
 			nf := g.Pick(6, "nfeat")
@@ -423,5 +471,29 @@ func (g *G) GenSet() []*Mod {
 		scopes = append(scopes, sc)
 	}
 	_ = scopes
-	return mods
+	// submodules follow their module in the returned set
+	var out []*Mod
+	for i, m := range mods {
+		out = append(out, m)
+		if sub := subs[i]; sub != nil {
+			out = append(out, sub)
+		}
+	}
+	return out
+}
+
+// see makes the definitions of module x referable in scope sc under the given prefix ("" or "pfx:").
+func (g *G) see(sc *scope, pfx string, x *Mod) {
+	for _, t := range x.Typedefs {
+		sc.typedefs = append(sc.typedefs, pfx+t.Name)
+	}
+	for _, gr := range x.Groupings {
+		sc.groupings = append(sc.groupings, pfx+gr.Name)
+	}
+	for _, f := range x.Features {
+		sc.features = append(sc.features, pfx+f.Name)
+	}
+	for _, id := range x.Identities {
+		sc.idents = append(sc.idents, pfx+id.Name)
+	}
 }
